@@ -410,6 +410,7 @@ struct Session {
     group_tagged: bool,
     group_open: bool,
     rng: Rng,
+    last_msg_ns: u64,
 }
 
 enum Flow {
@@ -474,6 +475,7 @@ impl Session {
             group_tagged: false,
             group_open: false,
             rng: Rng::new(sid.wrapping_mul(0x2545F4914F6CDD1D)),
+            last_msg_ns: 0,
         }
     }
 
@@ -513,7 +515,7 @@ impl Session {
                 let how = self.main_loop();
                 self.ctl.sessions.lock().unwrap().remove(&self.sid);
                 self.ctl.closed.fetch_add(1, Ordering::SeqCst);
-                self.end_busy();
+                self.end_busy_impl(true);
                 self.log.push(Ev::MockClose {
                     b: self.b,
                     sid: self.sid,
@@ -767,9 +769,14 @@ impl Session {
         *self.info.cur_client.lock().unwrap() = Some(client.to_string());
     }
 
-    fn end_busy(&mut self) {
+    /// `at_close`: the session ended (EOF / error) while still marked busy. The pooler closed its
+    /// end some time before this thread noticed; the interval is ended at the last message seen
+    /// (an under-approximation, so that a discarded connection and its replacement never overlap
+    /// merely because the mock noticed the FIN late).
+    fn end_busy_impl(&mut self, at_close: bool) {
         if self.info.busy.swap(false, Ordering::SeqCst) {
             let t0 = self.info.busy_since.load(Ordering::SeqCst);
+            let t_end = if at_close { self.last_msg_ns.max(t0) } else { now_ns() };
             let client = self
                 .info
                 .cur_client
@@ -780,13 +787,18 @@ impl Session {
             self.busy_log.lock().unwrap().push(BusyInterval {
                 sid: self.sid,
                 t0,
-                t1: now_ns(),
+                t1: t_end,
                 client,
             });
         }
     }
 
+    fn end_busy(&mut self) {
+        self.end_busy_impl(false)
+    }
+
     fn handle(&mut self, m: Msg) -> Flow {
+        self.last_msg_ns = now_ns();
         self.seq += 1;
         let seq = self.seq;
         let raw = Arc::new(if self.log.keep_bytes.load(Ordering::Relaxed) || m.body.len() < 512 {
